@@ -1121,6 +1121,14 @@ class Walker:
                 return [("val", Const(len(args[0].value)), s)]
             except Exception:
                 pass
+        if name in PURE_EXT_FUNCS and args and all(a.kind == "const" for a in args) and not kws:
+            import posixpath
+
+            try:
+                fn = getattr(posixpath, name.split(".")[-1])
+                return [("val", Const(fn(*[a.value for a in args])), s)]
+            except Exception:
+                pass
         if name in ("typing.cast",) and len(args) == 2:
             return [("val", args[1], s)]
         if name == "builtins.bool" and args:
@@ -1242,6 +1250,9 @@ class Walker:
 PURE_STR_METHODS = {"startswith", "endswith", "strip", "lstrip", "rstrip", "lower", "upper", "find", "rfind", "count",
                     "isdigit", "isalpha", "isspace", "removeprefix", "removesuffix", "replace", "split", "rsplit",
                     "partition", "rpartition", "title", "capitalize", "index", "rindex", "zfill"}
+# pure functions of the standard library that may be folded on constant arguments (POSIX semantics)
+PURE_EXT_FUNCS = {"os.path.join", "os.path.normpath", "os.path.dirname", "os.path.basename", "os.path.split", "os.path.isabs",
+                  "posixpath.join", "posixpath.normpath", "posixpath.dirname", "posixpath.basename", "posixpath.split"}
 EXT_CONSTS = {
     "socket.MSG_PEEK": "<socket.MSG_PEEK>",
 }
